@@ -121,6 +121,9 @@ proofs/BotFacts.vos proofs/BotFacts.vok proofs/BotFacts.required_vos: proofs/Bot
 proofs/BridgeFacts.vo proofs/BridgeFacts.glob proofs/BridgeFacts.v.beautified proofs/BridgeFacts.required_vo: proofs/BridgeFacts.v base/Bits.vo base/Types.vo base/BitBoard.vo base/Sweep.vo geom/Geometry.vo model/Board.vo spec/Rules.vo proofs/BitsFacts.vo proofs/BitBoardFacts.vo
 proofs/BridgeFacts.vio: proofs/BridgeFacts.v base/Bits.vio base/Types.vio base/BitBoard.vio base/Sweep.vio geom/Geometry.vio model/Board.vio spec/Rules.vio proofs/BitsFacts.vio proofs/BitBoardFacts.vio
 proofs/BridgeFacts.vos proofs/BridgeFacts.vok proofs/BridgeFacts.required_vos: proofs/BridgeFacts.v base/Bits.vos base/Types.vos base/BitBoard.vos base/Sweep.vos geom/Geometry.vos model/Board.vos spec/Rules.vos proofs/BitsFacts.vos proofs/BitBoardFacts.vos
+proofs/Combine.vo proofs/Combine.glob proofs/Combine.v.beautified proofs/Combine.required_vo: proofs/Combine.v base/Bits.vo base/Types.vo base/BitBoard.vo model/Board.vo model/MoveGen.vo model/Apply.vo model/Fen.vo model/Search.vo proofs/HashFacts.vo proofs/BotFacts.vo proofs/InvFacts.vo
+proofs/Combine.vio: proofs/Combine.v base/Bits.vio base/Types.vio base/BitBoard.vio model/Board.vio model/MoveGen.vio model/Apply.vio model/Fen.vio model/Search.vio proofs/HashFacts.vio proofs/BotFacts.vio proofs/InvFacts.vio
+proofs/Combine.vos proofs/Combine.vok proofs/Combine.required_vos: proofs/Combine.v base/Bits.vos base/Types.vos base/BitBoard.vos model/Board.vos model/MoveGen.vos model/Apply.vos model/Fen.vos model/Search.vos proofs/HashFacts.vos proofs/BotFacts.vos proofs/InvFacts.vos
 proofs/CoreFacts.vo proofs/CoreFacts.glob proofs/CoreFacts.v.beautified proofs/CoreFacts.required_vo: proofs/CoreFacts.v base/Bits.vo base/Types.vo base/BitBoard.vo model/Board.vo model/MoveGen.vo model/Apply.vo model/Fen.vo spec/Rules.vo
 proofs/CoreFacts.vio: proofs/CoreFacts.v base/Bits.vio base/Types.vio base/BitBoard.vio model/Board.vio model/MoveGen.vio model/Apply.vio model/Fen.vio spec/Rules.vio
 proofs/CoreFacts.vos proofs/CoreFacts.vok proofs/CoreFacts.required_vos: proofs/CoreFacts.v base/Bits.vos base/Types.vos base/BitBoard.vos model/Board.vos model/MoveGen.vos model/Apply.vos model/Fen.vos spec/Rules.vos
@@ -187,9 +190,9 @@ props/C02.vos props/C02.vok props/C02.required_vos: props/C02.v base/Bits.vos ba
 props/C03.vo props/C03.glob props/C03.v.beautified props/C03.required_vo: props/C03.v base/Bits.vo base/Types.vo base/BitBoard.vo model/Board.vo model/MoveGen.vo model/Apply.vo model/Fen.vo spec/Rules.vo proofs/CoreFacts.vo proofs/BridgeFacts.vo proofs/PlayableFacts.vo
 props/C03.vio: props/C03.v base/Bits.vio base/Types.vio base/BitBoard.vio model/Board.vio model/MoveGen.vio model/Apply.vio model/Fen.vio spec/Rules.vio proofs/CoreFacts.vio proofs/BridgeFacts.vio proofs/PlayableFacts.vio
 props/C03.vos props/C03.vok props/C03.required_vos: props/C03.v base/Bits.vos base/Types.vos base/BitBoard.vos model/Board.vos model/MoveGen.vos model/Apply.vos model/Fen.vos spec/Rules.vos proofs/CoreFacts.vos proofs/BridgeFacts.vos proofs/PlayableFacts.vos
-props/C04.vo props/C04.glob props/C04.v.beautified props/C04.required_vo: props/C04.v base/Bits.vo base/Types.vo gen/T_zobrist.vo base/BitBoard.vo model/Board.vo model/MoveGen.vo model/Apply.vo model/Fen.vo proofs/ZobristFacts.vo proofs/HashFacts.vo
-props/C04.vio: props/C04.v base/Bits.vio base/Types.vio gen/T_zobrist.vio base/BitBoard.vio model/Board.vio model/MoveGen.vio model/Apply.vio model/Fen.vio proofs/ZobristFacts.vio proofs/HashFacts.vio
-props/C04.vos props/C04.vok props/C04.required_vos: props/C04.v base/Bits.vos base/Types.vos gen/T_zobrist.vos base/BitBoard.vos model/Board.vos model/MoveGen.vos model/Apply.vos model/Fen.vos proofs/ZobristFacts.vos proofs/HashFacts.vos
+props/C04.vo props/C04.glob props/C04.v.beautified props/C04.required_vo: props/C04.v base/Bits.vo base/Types.vo gen/T_zobrist.vo base/BitBoard.vo model/Board.vo model/MoveGen.vo model/Apply.vo model/Fen.vo proofs/ZobristFacts.vo proofs/HashFacts.vo spec/IterSpec.vo proofs/InvFacts.vo proofs/Combine.vo
+props/C04.vio: props/C04.v base/Bits.vio base/Types.vio gen/T_zobrist.vio base/BitBoard.vio model/Board.vio model/MoveGen.vio model/Apply.vio model/Fen.vio proofs/ZobristFacts.vio proofs/HashFacts.vio spec/IterSpec.vio proofs/InvFacts.vio proofs/Combine.vio
+props/C04.vos props/C04.vok props/C04.required_vos: props/C04.v base/Bits.vos base/Types.vos gen/T_zobrist.vos base/BitBoard.vos model/Board.vos model/MoveGen.vos model/Apply.vos model/Fen.vos proofs/ZobristFacts.vos proofs/HashFacts.vos spec/IterSpec.vos proofs/InvFacts.vos proofs/Combine.vos
 props/C05.vo props/C05.glob props/C05.v.beautified props/C05.required_vo: props/C05.v base/Bits.vo base/Types.vo base/BitBoard.vo model/Board.vo model/Fen.vo spec/Rules.vo proofs/FenFacts.vo proofs/CoreFacts.vo proofs/FenRoundTrip.vo
 props/C05.vio: props/C05.v base/Bits.vio base/Types.vio base/BitBoard.vio model/Board.vio model/Fen.vio spec/Rules.vio proofs/FenFacts.vio proofs/CoreFacts.vio proofs/FenRoundTrip.vio
 props/C05.vos props/C05.vok props/C05.required_vos: props/C05.v base/Bits.vos base/Types.vos base/BitBoard.vos model/Board.vos model/Fen.vos spec/Rules.vos proofs/FenFacts.vos proofs/CoreFacts.vos proofs/FenRoundTrip.vos
@@ -220,9 +223,9 @@ props/C13.vos props/C13.vok props/C13.required_vos: props/C13.v base/Types.vos m
 props/C14.vo props/C14.glob props/C14.v.beautified props/C14.required_vo: props/C14.v model/Score.vo proofs/ScoreOrder.vo
 props/C14.vio: props/C14.v model/Score.vio proofs/ScoreOrder.vio
 props/C14.vos props/C14.vok props/C14.required_vos: props/C14.v model/Score.vos proofs/ScoreOrder.vos
-props/C15.vo props/C15.glob props/C15.v.beautified props/C15.required_vo: props/C15.v base/Types.vo model/Board.vo model/MoveGen.vo model/Apply.vo model/Search.vo model/Bot.vo proofs/HashFacts.vo proofs/BotFacts.vo
-props/C15.vio: props/C15.v base/Types.vio model/Board.vio model/MoveGen.vio model/Apply.vio model/Search.vio model/Bot.vio proofs/HashFacts.vio proofs/BotFacts.vio
-props/C15.vos props/C15.vok props/C15.required_vos: props/C15.v base/Types.vos model/Board.vos model/MoveGen.vos model/Apply.vos model/Search.vos model/Bot.vos proofs/HashFacts.vos proofs/BotFacts.vos
+props/C15.vo props/C15.glob props/C15.v.beautified props/C15.required_vo: props/C15.v base/Types.vo model/Board.vo model/MoveGen.vo model/Apply.vo model/Search.vo model/Bot.vo proofs/HashFacts.vo proofs/BotFacts.vo spec/IterSpec.vo proofs/InvFacts.vo proofs/Combine.vo
+props/C15.vio: props/C15.v base/Types.vio model/Board.vio model/MoveGen.vio model/Apply.vio model/Search.vio model/Bot.vio proofs/HashFacts.vio proofs/BotFacts.vio spec/IterSpec.vio proofs/InvFacts.vio proofs/Combine.vio
+props/C15.vos props/C15.vok props/C15.required_vos: props/C15.v base/Types.vos model/Board.vos model/MoveGen.vos model/Apply.vos model/Search.vos model/Bot.vos proofs/HashFacts.vos proofs/BotFacts.vos spec/IterSpec.vos proofs/InvFacts.vos proofs/Combine.vos
 props/C16.vo props/C16.glob props/C16.v.beautified props/C16.required_vo: props/C16.v model/Score.vo model/Abi.vo proofs/AbiFacts.vo
 props/C16.vio: props/C16.v model/Score.vio model/Abi.vio proofs/AbiFacts.vio
 props/C16.vos props/C16.vok props/C16.required_vos: props/C16.v model/Score.vos model/Abi.vos proofs/AbiFacts.vos
